@@ -1,5 +1,363 @@
 /-
-C04 — property theorems (stub: no theorem stated yet, so no obligation is counted).
+C04 — Index queries are complete: every added record that overlaps a query is covered by a returned
+chunk.  PROPERTY THEOREMS ONLY (helper lemmas live in Hts.Lemmas.Index*).
+
+Everything is stated for ALL coordinate-sorted record sequences (`SortedInput`: any length, any number
+of references incl. skipped ids, unplaced records anywhere), ALL query intervals in the indexable
+range and ALL merge strategies that satisfy `EncLaw` (proved below for Adjacent, Squash and every
+CompressorStrategy(n)).  The models mirror the code with the repairs fixes/C04-1..3 applied.
+"Covered" is the strong reading: ONE returned chunk encloses the record's whole chunk.
 -/
+import Hts.Lemmas.IndexMerge
+import Hts.Lemmas.IndexCsi
+import Hts.Lemmas.IndexTabix
+import Hts.Props.C16
 namespace Hts.Props.C04
+open Hts.Model Hts.Model.Index
+
+/-! ### Add never fails on sorted input; what the index then knows -/
+
+/-- `add_never_fails`: on every coordinate-sorted in-range sequence every `Add` returns nil
+(no error, no panic) -/
+theorem add_never_fails (recs : List Rec) (h : SortedInput recs) :
+    ∀ x, x ∈ (addAll {} recs).2 → x = AddRes.ok :=
+  (addAll_sorted recs h).1
+
+/-- `bins_inv`: after the whole sequence the chunk of every placed record is stored under the
+record's bin in the record's reference, and bin numbers are pairwise distinct -/
+theorem bins_inv (recs : List Rec) (h : SortedInput recs) (r : Rec) (hr : r ∈ recs) (hp : r.placed = true) :
+    ∃ ref, (addAll {} recs).1.refs[r.rid.toNat]? = some ref ∧ (ref.bins.map (·.bin)).Nodup ∧
+      ∃ bn, bn ∈ ref.bins ∧ bn.bin = r.bin ∧ r.chunk ∈ bn.chunks := by
+  have inv := (addAll_sorted recs h).2
+  have hmem : r ∈ (recs.filter (·.placed)).reverse := by
+    rw [List.mem_reverse, List.mem_filter]; exact ⟨hr, hp⟩
+  obtain ⟨h0, hlt⟩ := inv.ridLt r hmem
+  have hlt' : r.rid.toNat < (addAll {} recs).1.refs.length := by omega
+  refine ⟨_, (List.getElem?_eq_some_iff).2 ⟨hlt', rfl⟩, ?_⟩
+  have ri := inv.refInv _ _ ((List.getElem?_eq_some_iff).2 ⟨hlt', rfl⟩)
+  refine ⟨ri.nodup, ri.bins r ?_⟩
+  unfold onRef; rw [List.mem_filter]; exact ⟨hmem, by simp; omega⟩
+
+/-- `tiles_inv`: the tile array of the record's reference reaches the last tile the record overlaps,
+and no entry up to that tile lies behind the record's chunk begin -/
+theorem tiles_inv (recs : List Rec) (h : SortedInput recs) (r : Rec) (hr : r ∈ recs) (hp : r.placed = true) :
+    ∃ ref, (addAll {} recs).1.refs[r.rid.toNat]? = some ref ∧
+      lastTile r.start r.stop < ref.intervals.length ∧
+      ∀ k v, k ≤ lastTile r.start r.stop → ref.intervals[k]? = some v → v ≤ r.chunk.b := by
+  have inv := (addAll_sorted recs h).2
+  have hmem : r ∈ (recs.filter (·.placed)).reverse := by
+    rw [List.mem_reverse, List.mem_filter]; exact ⟨hr, hp⟩
+  obtain ⟨h0, hlt⟩ := inv.ridLt r hmem
+  have hlt' : r.rid.toNat < (addAll {} recs).1.refs.length := by omega
+  refine ⟨_, (List.getElem?_eq_some_iff).2 ⟨hlt', rfl⟩, ?_⟩
+  have ri := inv.refInv _ _ ((List.getElem?_eq_some_iff).2 ⟨hlt', rfl⟩)
+  have hm : r ∈ onRef (recs.filter (·.placed)).reverse r.rid.toNat := by
+    unfold onRef; rw [List.mem_filter]; exact ⟨hmem, by simp; omega⟩
+  exact ⟨ri.tilesLen r hm, ri.tilesLe r hm⟩
+
+/-- `sorted_tiles_le`: sorting the tile array (as `sort()` does) never makes the entry at a position
+larger than a bound that held for the whole prefix up to that position -/
+theorem sorted_tiles_le (l : List Int) (k : Nat) (B : Int) (hk : k < l.length)
+    (hpre : ∀ j v, j ≤ k → l[j]? = some v → v ≤ B) :
+    ∀ v, (l.mergeSort leOff)[k]? = some v → v ≤ B :=
+  Index.sorted_tiles_le l k B hk hpre
+
+/-! ### the merge strategies lose no chunk -/
+
+theorem adjacent_encloses : EncLaw Local.adjacent := Local.encLaw_adjacent
+theorem squash_encloses : EncLaw Local.squash := Local.encLaw_squash
+theorem compressor_encloses (near : Int) : EncLaw (Local.compressor near) := Local.encLaw_compressor near
+theorem identity_encloses : EncLaw id := encLaw_id
+
+/-! ### completeness of `internal.Index.Chunks` -/
+
+/-- the index after the sequence, optionally after `MergeChunks pre` -/
+def built (recs : List Rec) : Index := (addAll {} recs).1
+
+/-- `chunks_complete` for `internal.Index`: for every query `[beg, stop)` with `0 ≤ beg < stop` and
+every placed record overlapping it whose bin is among the candidate bins, `Chunks` succeeds and, after
+any strategy `s` with `EncLaw`, one returned chunk encloses the record's chunk; the same after
+`MergeChunks pre` for any `pre` with `EncLaw` -/
+theorem chunks_complete (recs : List Rec) (h : SortedInput recs) (r : Rec) (hr : r ∈ recs)
+    (hp : r.placed = true) (beg stop : Int) (bins : List Nat) (hb : 0 ≤ beg) (hq : beg < stop)
+    (hov : beg < r.stop) (hbin : r.bin ∈ bins)
+    (pre s : List Chunk → List Chunk) (hpre : EncLaw pre) (hs : EncLaw s) :
+    (∃ cs, chunks (built recs) r.rid beg stop bins = .ok cs ∧ coveredBy (s cs) r.chunk) ∧
+    (∃ cs, chunks (mergeChunks pre (built recs)) r.rid beg stop bins = .ok cs ∧ coveredBy (s cs) r.chunk) := by
+  have inv := (addAll_sorted recs h).2
+  have hmem : r ∈ (recs.filter (·.placed)).reverse := by
+    rw [List.mem_reverse, List.mem_filter]; exact ⟨hr, hp⟩
+  have hok := h.ok r hr
+  constructor
+  · obtain ⟨cs, h1, h2, c, hc, hce⟩ := chunks_complete_cover _ _ inv.cover r hmem hok.ce (hok.pos hp) beg stop bins hb hq hov hbin
+    exact ⟨cs, h1, coveredBy_trans (hs cs h2 c hc) hce⟩
+  · obtain ⟨cs, h1, h2, c, hc, hce⟩ := chunks_complete_cover _ _ (mergeChunks_cover pre hpre _ _ inv.cover) r hmem
+      hok.ce (hok.pos hp) beg stop bins hb hq hov hbin
+    exact ⟨cs, h1, coveredBy_trans (hs cs h2 c hc) hce⟩
+
+/-! ### BAI: `bam.Index` -/
+
+/-- the internal record `bam.Index.Add` derives from a `sam.Record` -/
+abbrev baiRec (r : Bai.BaiRec) : Rec := Bai.toRec Coord.binFor r
+
+/-- the BAI index after adding the records -/
+def baiBuilt (recs : List Bai.BaiRec) : Index := built (recs.map baiRec)
+
+/-- the bin law of C16 in the form needed here: the bin `Record.Bin` files a placed record under is
+listed by `OverlappingBinsFor` for every overlapping query in range -/
+theorem bai_bin_law (r : Rec) (hok : RecOK r) (hp : r.placed = true) (hbin : r.bin = Coord.binFor r.start r.stop)
+    (beg stop : Int) (hb : 0 ≤ beg) (hq : beg < stop) (hs : stop ≤ 536870912)
+    (hov1 : r.start < stop) (hov2 : beg < r.stop) : r.bin ∈ Coord.overlappingBinsFor beg stop := by
+  obtain ⟨h0, hlt⟩ := hok.pos hp
+  have hv := hok.vstop
+  simp only [validPos, Bool.and_eq_true, decide_eq_true_eq] at hv
+  have := Hts.Props.C16.bai_bin_in_bins r.start.toNat r.stop.toNat beg.toNat stop.toNat
+    (by omega) (by omega) (by omega) (by omega) (by omega) (by omega)
+  rw [hbin]
+  have e1 : ((r.start.toNat : Nat) : Int) = r.start := by omega
+  have e2 : ((r.stop.toNat : Nat) : Int) = r.stop := by omega
+  have e3 : ((beg.toNat : Nat) : Int) = beg := by omega
+  have e4 : ((stop.toNat : Nat) : Int) = stop := by omega
+  rw [e1, e2, e3, e4] at this
+  exact this
+
+/-- `chunks_complete` for BAI: for every coordinate-sorted sequence of `sam.Record`s, every query
+`[beg, stop)` with `0 ≤ beg < stop ≤ 2^29` on any reference and every placed record overlapping it,
+`bam.Index.Chunks` returns no error and one returned chunk encloses the record's chunk — with the
+default strategy or any `MergeStrategy` satisfying `EncLaw`, and also after `MergeChunks pre` -/
+theorem bai_chunks_complete (recs : List Bai.BaiRec) (h : SortedInput (recs.map baiRec))
+    (r : Bai.BaiRec) (hr : r ∈ recs) (hp : (baiRec r).placed = true)
+    (beg stop : Int) (hb : 0 ≤ beg) (hq : beg < stop) (hs29 : stop ≤ 536870912)
+    (hov1 : r.pos < stop) (hov2 : beg < r.stop)
+    (pre s : List Chunk → List Chunk) (hpre : EncLaw pre) (hs : EncLaw s) :
+    (∃ cs, Bai.chunks Coord.overlappingBinsFor s (baiBuilt recs) (baiRec r).rid beg stop = .ok cs ∧
+        coveredBy cs r.chunk) ∧
+    (∃ cs, Bai.chunks Coord.overlappingBinsFor s (mergeChunks pre (baiBuilt recs)) (baiRec r).rid beg stop = .ok cs ∧
+        coveredBy cs r.chunk) := by
+  have hmem : baiRec r ∈ recs.map baiRec := List.mem_map.2 ⟨r, hr, rfl⟩
+  have hbin := bai_bin_law (baiRec r) (h.ok _ hmem) hp rfl beg stop hb hq hs29 hov1 hov2
+  obtain ⟨⟨cs, h1, h2⟩, ⟨cs', h1', h2'⟩⟩ := chunks_complete (recs.map baiRec) h (baiRec r) hmem hp beg stop
+    (Coord.overlappingBinsFor beg stop) hb hq hov2 hbin pre s hpre hs
+  constructor
+  · refine ⟨s cs, ?_, h2⟩
+    unfold Bai.chunks baiBuilt
+    rw [h1]
+  · refine ⟨s cs', ?_, h2'⟩
+    unfold Bai.chunks baiBuilt
+    rw [h1']
+
+/-- the last clause of the property for BAI: an error or an empty answer implies that no added placed
+record overlaps the query -/
+theorem bai_error_or_empty_means_no_overlap (recs : List Bai.BaiRec) (h : SortedInput (recs.map baiRec))
+    (rid beg stop : Int) (hb : 0 ≤ beg) (hq : beg < stop) (hs29 : stop ≤ 536870912)
+    (s : List Chunk → List Chunk) (hs : EncLaw s)
+    (hans : (∃ e, Bai.chunks Coord.overlappingBinsFor s (baiBuilt recs) rid beg stop = .error e) ∨
+            Bai.chunks Coord.overlappingBinsFor s (baiBuilt recs) rid beg stop = .ok []) :
+    ¬ ∃ r, r ∈ recs ∧ (baiRec r).placed = true ∧ (baiRec r).rid = rid ∧ r.pos < stop ∧ beg < r.stop := by
+  rintro ⟨r, hr, hp, hrid, hov1, hov2⟩
+  obtain ⟨⟨cs, h1, c, hc, _⟩, _⟩ := bai_chunks_complete recs h r hr hp beg stop hb hq hs29 hov1 hov2 id s encLaw_id hs
+  rw [hrid] at h1
+  rcases hans with ⟨e, he⟩ | he
+  · rw [he] at h1; cases h1
+  · rw [he] at h1
+    cases h1
+    cases hc
+
+/-! ### CSI: `csi.Index`, every geometry (minShift, depth) with depth ≤ 10 -/
+section csi
+open Hts.Model.Csi
+
+/-- `csi.New(minShift, depth)` (version and auxiliary data play no role for Add and Chunks) -/
+def csiNew (ms d : Nat) : CIndex := { minShift := ms, depth := d }
+
+def csiBuilt (ms d : Nat) (recs : List CRec) : CIndex := (Csi.addAll Coord.reg2bin (csiNew ms d) recs).1
+
+theorem csi_inv (ms d : Nat) (recs : List CRec) (h : CSortedInput ms d recs) :
+    allOk (Csi.addAll Coord.reg2bin (csiNew ms d) recs).2 ∧ (csiBuilt ms d recs).minShift = ms ∧
+      (csiBuilt ms d recs).depth = d ∧
+      CIdxInv (fun x => Coord.reg2bin x.start x.stop ms d) (csiBuilt ms d recs) (recs.filter (·.placed)).reverse := by
+  have init : CIdxInv (fun x => Coord.reg2bin x.start x.stop ms d) (csiNew ms d) [] :=
+    { flag := rfl
+      len0 := fun _ => rfl
+      last := by intro a rest h; cases h
+      ridLt := by intro a h; cases h
+      refInv := by intro j ref h; simp [csiNew] at h }
+  have := Csi.addAll_inv Coord.reg2bin ms d recs (csiNew ms d) [] rfl rfl init (by intro a ha; cases ha)
+    h.ok h.sorted (by intro a ha; cases ha)
+  simpa [csiBuilt] using this
+
+/-- `add_never_fails` for CSI -/
+theorem csi_add_never_fails (ms d : Nat) (recs : List CRec) (h : CSortedInput ms d recs) :
+    ∀ x, x ∈ (Csi.addAll Coord.reg2bin (csiNew ms d) recs).2 → x = AddRes.ok :=
+  (csi_inv ms d recs h).1
+
+/-- the bin law of C16 for CSI in the form needed here -/
+theorem csi_bin_law (ms d : Nat) (hd : d ≤ 10) (r : CRec) (hok : CRecOK ms d r) (hp : r.placed = true)
+    (beg stop : Int) (hb : 0 ≤ beg) (hq : beg < stop) (hs : stop ≤ (2 : Int) ^ (ms + 3 * d))
+    (hov1 : r.start < stop) (hov2 : beg < r.stop) :
+    Coord.reg2bin r.start r.stop ms d ∈ Coord.reg2bins beg stop ms d := by
+  obtain ⟨h0, hlt⟩ := hok.pos hp
+  have hv := hok.vstop
+  simp only [Csi.validPos, Bool.and_eq_true, decide_eq_true_eq] at hv
+  have e : ((2 ^ (ms + 3 * d) : Nat) : Int) = (2 : Int) ^ (ms + 3 * d) := by
+    rw [Int.natCast_pow]; rfl
+  have := Hts.Props.C16.csi_bin_in_bins r.start.toNat r.stop.toNat beg.toNat stop.toNat ms d hd
+    (by omega) (by omega) (by omega) (by omega) (by omega) (by omega)
+  have e1 : ((r.start.toNat : Nat) : Int) = r.start := by omega
+  have e2 : ((r.stop.toNat : Nat) : Int) = r.stop := by omega
+  have e3 : ((beg.toNat : Nat) : Int) = beg := by omega
+  have e4 : ((stop.toNat : Nat) : Int) = stop := by omega
+  rw [e1, e2, e3, e4] at this
+  exact this
+
+/-- `chunks_complete` for CSI: for every geometry with depth ≤ 10, every coordinate-sorted sequence,
+every query `[beg, stop)` with `0 ≤ beg < stop ≤ 2^(minShift+3·depth)` and every placed record
+overlapping it, one chunk returned by `csi.Index.Chunks` encloses the record's chunk; also after
+`MergeChunks pre` for every `pre` with `EncLaw` -/
+theorem csi_chunks_complete (ms d : Nat) (hd : d ≤ 10) (recs : List CRec) (h : CSortedInput ms d recs)
+    (r : CRec) (hr : r ∈ recs) (hp : r.placed = true)
+    (beg stop : Int) (hb : 0 ≤ beg) (hq : beg < stop) (hs : stop ≤ (2 : Int) ^ (ms + 3 * d))
+    (hov1 : r.start < stop) (hov2 : beg < r.stop)
+    (pre : List Chunk → List Chunk) (hpre : EncLaw pre) :
+    coveredBy (Csi.chunks Coord.reg2bins Local.adjacent (csiBuilt ms d recs) r.rid beg stop) r.chunk ∧
+    coveredBy (Csi.chunks Coord.reg2bins Local.adjacent (Csi.mergeChunks pre (csiBuilt ms d recs)) r.rid beg stop)
+      r.chunk := by
+  obtain ⟨_, hms, hdp, inv⟩ := csi_inv ms d recs h
+  have hmem : r ∈ (recs.filter (·.placed)).reverse := by
+    rw [List.mem_reverse, List.mem_filter]; exact ⟨hr, hp⟩
+  have hbin := csi_bin_law ms d hd r (h.ok r hr) hp beg stop hb hq hs hov1 hov2
+  constructor
+  · exact Csi.chunks_complete_cover Coord.reg2bins Local.adjacent Local.encLaw_adjacent _ _ _ inv.cover r hmem
+      beg stop (by rw [hms, hdp]; exact hbin)
+  · exact Csi.chunks_complete_cover Coord.reg2bins Local.adjacent Local.encLaw_adjacent _ _ _
+      (Csi.mergeChunks_cover pre hpre _ _ _ inv.cover) r hmem beg stop
+      (by show _ ∈ Coord.reg2bins beg stop (csiBuilt ms d recs).minShift (csiBuilt ms d recs).depth
+          rw [hms, hdp]; exact hbin)
+
+/-- an empty answer (also the answer for an unknown reference) implies that no added placed record
+overlaps the query -/
+theorem csi_empty_means_no_overlap (ms d : Nat) (hd : d ≤ 10) (recs : List CRec) (h : CSortedInput ms d recs)
+    (rid beg stop : Int) (hb : 0 ≤ beg) (hq : beg < stop) (hs : stop ≤ (2 : Int) ^ (ms + 3 * d))
+    (hans : Csi.chunks Coord.reg2bins Local.adjacent (csiBuilt ms d recs) rid beg stop = []) :
+    ¬ ∃ r, r ∈ recs ∧ r.placed = true ∧ r.rid = rid ∧ r.start < stop ∧ beg < r.stop := by
+  rintro ⟨r, hr, hp, hrid, hov1, hov2⟩
+  obtain ⟨⟨c, hc, _⟩, _⟩ := csi_chunks_complete ms d hd recs h r hr hp beg stop hb hq hs hov1 hov2 id encLaw_id
+  rw [hrid, hans] at hc
+  cases hc
+
+end csi
+
+/-! ### tabix: `tabix.Index` (reference names in front of the internal index) -/
+section tabix
+open Hts.Model.Tabix
+
+/-- `tabix.New()` with any header fields -/
+def tbxNew (hdr : Header) : TIndex := { hdr := hdr }
+
+/-- the internal records (with the reference ids assigned by the name table) a tabix input turns into -/
+def tbxTrace (hdr : Header) (recs : List TRec) : List Rec := Tabix.trace Coord.binFor (tbxNew hdr) recs
+
+def tbxBuilt (hdr : Header) (recs : List TRec) : TIndex := (Tabix.addAll Coord.binFor (tbxNew hdr) recs).1
+
+/-- `add_never_fails` for tabix; "sorted" means: the internal records are coordinate-sorted, i.e. the
+records of one name are contiguous (ids are given in order of first placed appearance) -/
+theorem tabix_add_never_fails (hdr : Header) (recs : List TRec) (h : SortedInput (tbxTrace hdr recs)) :
+    ∀ x, x ∈ (Tabix.addAll Coord.binFor (tbxNew hdr) recs).2 → x = AddRes.ok := by
+  rw [(Tabix.addAll_idx Coord.binFor recs (tbxNew hdr)).2]
+  exact (addAll_sorted _ h).1
+
+/-- `chunks_complete` for tabix: the `k`-th record, if placed, is covered by one chunk of the answer
+to every overlapping in-range query on its reference NAME; also after `MergeChunks pre` -/
+theorem tabix_chunks_complete (hdr : Header) (recs : List TRec) (h : SortedInput (tbxTrace hdr recs))
+    (k : Nat) (r : TRec) (hk : recs[k]? = some r) (hp : r.placed = true)
+    (beg stop : Int) (hb : 0 ≤ beg) (hq : beg < stop) (hs29 : stop ≤ 536870912)
+    (hov1 : r.start < stop) (hov2 : beg < r.stop)
+    (pre : List Chunk → List Chunk) (hpre : EncLaw pre) :
+    (∃ cs, Tabix.chunks Coord.overlappingBinsFor Local.adjacent (tbxBuilt hdr recs) r.name beg stop = .ok cs ∧
+        coveredBy cs r.chunk) ∧
+    (∃ cs, Tabix.chunks Coord.overlappingBinsFor Local.adjacent (Tabix.mergeChunks pre (tbxBuilt hdr recs))
+        r.name beg stop = .ok cs ∧ coveredBy cs r.chunk) := by
+  obtain ⟨x, hx, hxs, hxe, hxc, hxp, _, hxb⟩ := Tabix.trace_get Coord.binFor recs (tbxNew hdr) k r hk
+  have hxmem : x ∈ tbxTrace hdr recs := List.mem_of_getElem? hx
+  have hpx : x.placed = true := by rw [hxp]; exact hp
+  have hname : Tabix.mapGet (tbxBuilt hdr recs).nameMap r.name = some x.rid.toNat :=
+    (Tabix.names_final Coord.binFor recs (tbxNew hdr) [] idxInv_empty (by intro a ha; cases ha)
+      h.ok h.sorted (by intro a ha; cases ha)).2 k r x hk hx hp
+  have hidx : (tbxBuilt hdr recs).idx = built (tbxTrace hdr recs) :=
+    (Tabix.addAll_idx Coord.binFor recs (tbxNew hdr)).1
+  have hokx := h.ok x hxmem
+  have hrid := hokx.rid hpx
+  have hbin := bai_bin_law x hokx hpx (by rw [hxb, hxs, hxe]) beg stop hb hq hs29 (by omega) (by omega)
+  obtain ⟨⟨cs, h1, h2⟩, ⟨cs', h1', h2'⟩⟩ := chunks_complete (tbxTrace hdr recs) h x hxmem hpx beg stop
+    (Coord.overlappingBinsFor beg stop) hb hq (by omega) hbin pre Local.adjacent hpre Local.encLaw_adjacent
+  have hcast : ((x.rid.toNat : Nat) : Int) = x.rid := by omega
+  constructor
+  · refine ⟨Local.adjacent cs, ?_, by rw [← hxc]; exact h2⟩
+    unfold Tabix.chunks
+    rw [hname]
+    simp only [hidx, hcast, h1]
+  · refine ⟨Local.adjacent cs', ?_, by rw [← hxc]; exact h2'⟩
+    unfold Tabix.chunks Tabix.mergeChunks
+    simp only [hname, hidx, hcast, h1']
+
+/-- an error or an empty answer for a name implies that no placed record of that name overlaps -/
+theorem tabix_error_or_empty_means_no_overlap (hdr : Header) (recs : List TRec)
+    (h : SortedInput (tbxTrace hdr recs)) (name : Name) (beg stop : Int) (hb : 0 ≤ beg) (hq : beg < stop)
+    (hs29 : stop ≤ 536870912)
+    (hans : (∃ e, Tabix.chunks Coord.overlappingBinsFor Local.adjacent (tbxBuilt hdr recs) name beg stop = .error e) ∨
+            Tabix.chunks Coord.overlappingBinsFor Local.adjacent (tbxBuilt hdr recs) name beg stop = .ok []) :
+    ¬ ∃ (k : Nat) (r : TRec), recs[k]? = some r ∧ r.placed = true ∧ r.name = name ∧ r.start < stop ∧ beg < r.stop := by
+  rintro ⟨k, r, hk, hp, hn, hov1, hov2⟩
+  obtain ⟨⟨cs, h1, c, hc, _⟩, _⟩ := tabix_chunks_complete hdr recs h k r hk hp beg stop hb hq hs29 hov1 hov2 id encLaw_id
+  rw [hn] at h1
+  rcases hans with ⟨e, he⟩ | he
+  · rw [he] at h1; cases h1
+  · rw [he] at h1
+    cases h1
+    cases hc
+
+end tabix
+
+/-! ### non-vacuity: a sorted BAI input with a tile-straddling record, a record spanning three tiles,
+a skipped reference id, a placed-unmapped and an unplaced record (tests) -/
+
+def exBai : List Bai.BaiRec :=
+  [ ⟨true, 0, 100, 200, false, false, ⟨100, 150⟩⟩,
+    ⟨true, 0, 16000, 16500, false, false, ⟨150, 200⟩⟩,
+    ⟨false, -1, -1, 0, true, true, ⟨200, 250⟩⟩,
+    ⟨true, 2, 5, 40000, false, true, ⟨250, 300⟩⟩,
+    ⟨true, 2, 20000, 20001, true, true, ⟨300, 65536⟩⟩ ]
+
+example : SortedInput (exBai.map baiRec) := by decide
+example : (addAll {} (exBai.map baiRec)).2 = [.ok, .ok, .ok, .ok, .ok] := by decide
+/-- the theorem applied: the tile-straddling record is found by a query inside its second tile -/
+example : ∃ cs, Bai.chunks Coord.overlappingBinsFor Local.adjacent (baiBuilt exBai) 0 16400 16450 = .ok cs ∧
+    coveredBy cs ⟨150, 200⟩ :=
+  (bai_chunks_complete exBai (by decide) ⟨true, 0, 16000, 16500, false, false, ⟨150, 200⟩⟩ (by decide) (by decide)
+    16400 16450 (by decide) (by decide) (by decide) (by decide) (by decide) id Local.adjacent encLaw_id
+    adjacent_encloses).1
+example : EncLaw (Local.compressor (-1)) := compressor_encloses (-1)
+
+/-- a tabix input: two names, an unplaced line naming a third one in between -/
+def exTbx : List Tabix.TRec :=
+  [ ⟨[99, 104, 114, 49], 100, 200, ⟨0, 150⟩, true, true⟩,
+    ⟨[99, 104, 114, 49], 16000, 16500, ⟨150, 200⟩, true, true⟩,
+    ⟨[42], -1, 0, ⟨200, 250⟩, false, false⟩,
+    ⟨[99, 104, 114, 50], 5, 40000, ⟨250, 300⟩, true, false⟩ ]
+example : SortedInput (tbxTrace {} exTbx) := by decide
+example : (tbxBuilt {} exTbx).names = [[99, 104, 114, 49], [99, 104, 114, 50]] := by decide
+example : ∃ cs, Tabix.chunks Coord.overlappingBinsFor Local.adjacent (tbxBuilt {} exTbx) [99, 104, 114, 50] 39000 39500
+    = .ok cs ∧ coveredBy cs ⟨250, 300⟩ :=
+  (tabix_chunks_complete {} exTbx (by decide) 3 _ rfl (by decide) 39000 39500 (by decide) (by decide) (by decide)
+    (by decide) (by decide) id encLaw_id).1
+
+/-- a small CSI geometry (minShift 4, depth 2: positions below 1024) with a record over two finest bins -/
+def exCsi : List Csi.CRec :=
+  [ ⟨0, 0, 17, ⟨2309, 524288⟩, true, true⟩, ⟨1, -1, 0, ⟨524288, 524300⟩, false, false⟩,
+    ⟨0, 128, 290, ⟨524300, 600000⟩, true, false⟩, ⟨3, 1021, 1022, ⟨600000, 600001⟩, true, true⟩ ]
+example : Csi.CSortedInput 4 2 exCsi := by decide
+example : coveredBy (Csi.chunks Coord.reg2bins Local.adjacent (csiBuilt 4 2 exCsi) 0 2 3) ⟨2309, 524288⟩ :=
+  (csi_chunks_complete 4 2 (by decide) exCsi (by decide) ⟨0, 0, 17, ⟨2309, 524288⟩, true, true⟩ (by decide)
+    (by decide) 2 3 (by decide) (by decide) (by decide) (by decide) (by decide) id encLaw_id).1
+
 end Hts.Props.C04
